@@ -342,6 +342,11 @@ func runC11(c *Ctx) error {
 		p.verify(c, c11Patience)
 	}
 	prods = nil
+	if c.Replay == "" {
+		if err := c11Burst(c); err != nil {
+			return err
+		}
+	}
 	c.R.ModelOps = l.Ops
 	return nil
 }
